@@ -20,6 +20,8 @@ class StmtMixin:
                 if not r.ok or r.st.undecided:
                     nxt.append(r); continue
                 try:
+                    if not self.spec_depth and self.depth == 0 and hasattr(s, "lineno"):
+                        self.covered_lines.add(s.lineno)       # reached with a feasible state (dead-code / vacuity report)
                     nxt += self.ex(r.st, s)
                 except Unsupported as e:
                     r.st.undecided = str(e)
@@ -335,6 +337,8 @@ class StmtMixin:
             lt = self.local_types.get(target.id)
             if lt and isinstance(val, V) and val.ty is None:
                 val = self.typed(st, V(val.t, lt, val.src))
+            elif lt and isinstance(val, V) and val.ty == base_type(lt) and val.ty in ("list", "set", "dict", "tuple"):
+                val = V(val.t, lt, val.src)       # a bare container literal takes the declared element type of the local
             st.env[target.id] = val
             return [Res(st)]
         if isinstance(target, ast.Attribute):
@@ -617,6 +621,11 @@ class StmtMixin:
         fields = {}
         allocs = 0
         from .solve import has_quantifier
+        self._loop_end_types = {}
+        for r in outs:
+            for nm_, v_ in r.st.env.items():
+                if isinstance(v_, V):
+                    self._loop_end_types.setdefault(nm_, set()).add(v_.ty)
         self._loop_effects = set()
         for r in outs:
             for e_ in [x for x in r.st.trace if not any(x.orig is y.orig for y in st.trace)]:
@@ -661,7 +670,18 @@ class StmtMixin:
                                     patterns=[z3.Select(new, o)]))
         for nm in names:
             if nm in pre_names and isinstance(pre_names[nm], V):
-                st.env[nm] = self.typed(st, V(fresh_val(nm), pre_names[nm].ty))     # a local keeps its static type across iterations
+                # static type of a local at the loop head: the join of its type before the loop and of the types it has at the
+                # end of an iteration (dry run) - e.g. None before the loop and X after an assignment gives Optional[X]
+                tys = {pre_names[nm].ty} | set(getattr(self, "_loop_end_types", {}).get(nm, ()))
+                jt = pre_names[nm].ty
+                if len(tys) > 1:
+                    plain = {t[4:] if (t or "").startswith("opt:") else t for t in tys if t not in (None, "none")}
+                    if None in tys or len(plain) != 1:
+                        jt = None
+                    else:
+                        p_ = next(iter(plain))
+                        jt = ("opt:" + p_) if ("none" in tys or any((t or "").startswith("opt:") for t in tys)) else p_
+                st.env[nm] = self.typed(st, V(fresh_val(nm), jt))
             else:
                 st.env.pop(nm, None)
 
